@@ -15,8 +15,8 @@ Variable K : kinds.
 Variable rs : list rule.
 Variable toks : list rtok.
 Variable keywords soft_keywords : list string.
-Variable aeval : action -> list (string * value) -> value.
-Variable item_name : nitem -> option string.
+Variable aeval : alt -> list value -> list (string * value) -> nat -> nat -> option value.
+Variable item_name : alt -> nat -> option string.
 Variable forced_msg : item -> string.
 
 Notation pitem := (peg_item K rs toks keywords soft_keywords aeval item_name forced_msg).
@@ -32,7 +32,7 @@ Lemma mono_all :
   (forall i p r, pitem i p r -> forall v p', r = PSucc v p' -> p <= p') /\
   (forall i p r, pstar i p r -> forall vs p', r = inl (vs, p') -> p <= p') /\
   (forall s e p r, psep s e p r -> forall vs p', r = inl (vs, p') -> p <= p') /\
-  (forall ns p vals env cut r, pseq ns p vals env cut r -> forall vals' env' p', r = SSucc vals' env' p' -> p <= p') /\
+  (forall a k ns p vals env cut r, pseq a k ns p vals env cut r -> forall vals' env' p', r = SSucc vals' env' p' -> p <= p') /\
   (forall alts p r, palts alts p r -> forall v p', r = PSucc v p' -> p <= p').
 Proof.
   apply peg_mutind; intros; subst; try discriminate;
@@ -67,7 +67,7 @@ Ltac use_ih :=
       let E := fresh "E" in pose proof (IH _ Hd) as E; clear Hd; try discriminate E
   | IH : forall r2, psep ?s ?e ?p r2 -> ?r = r2, Hd : psep ?s ?e ?p ?r' |- _ =>
       let E := fresh "E" in pose proof (IH _ Hd) as E; clear Hd; try discriminate E
-  | IH : forall r2, pseq ?ns ?p ?v ?en ?c r2 -> ?r = r2, Hd : pseq ?ns ?p ?v ?en ?c ?r' |- _ =>
+  | IH : forall r2, pseq ?a ?k ?ns ?p ?v ?en ?c r2 -> ?r = r2, Hd : pseq ?a ?k ?ns ?p ?v ?en ?c ?r' |- _ =>
       let E := fresh "E" in pose proof (IH _ Hd) as E; clear Hd; try discriminate E
   | IH : forall r2, palts ?a ?p r2 -> ?r = r2, Hd : palts ?a ?p ?r' |- _ =>
       let E := fresh "E" in pose proof (IH _ Hd) as E; clear Hd; try discriminate E
@@ -91,7 +91,7 @@ Lemma det_all :
   (forall i p r1, pitem i p r1 -> forall r2, pitem i p r2 -> r1 = r2) /\
   (forall i p r1, pstar i p r1 -> forall r2, pstar i p r2 -> r1 = r2) /\
   (forall s e p r1, psep s e p r1 -> forall r2, psep s e p r2 -> r1 = r2) /\
-  (forall ns p vals env cut r1, pseq ns p vals env cut r1 -> forall r2, pseq ns p vals env cut r2 -> r1 = r2) /\
+  (forall a k ns p vals env cut r1, pseq a k ns p vals env cut r1 -> forall r2, pseq a k ns p vals env cut r2 -> r1 = r2) /\
   (forall alts p r1, palts alts p r1 -> forall r2, palts alts p r2 -> r1 = r2).
 Proof.
   apply peg_mutind; intros;
